@@ -214,6 +214,8 @@ def _z7(run, f, o, wave, ctext):
     if not has_flat:
         return False      # the triangle regime (two ramps, no flat top) is not decided
     stats = [_piece_stats(pc) for pc in pieces]
+    if any(s_ is not None and s_["step"] == T.const(0) and isinstance(s_["n"], T.Poly) and s_["n"].is_zero() for s_ in stats):
+        return False      # a flat top of zero samples: the triangle regime spelled with np.ones(0)
     label = "trap_grad trapezoid[%s]" % ctext[:50]
     if len(pieces) != 3 or any(s_ is None for s_ in stats) or stats[1]["step"] != T.const(0):
         run.bad("Z7", label, f.loc(), "trap_grad: on the path [%s] the unit pulse is not ramp / flat top / ramp built from linspace and ones: %s" % (ctext[:100], T.show(wave, 200)),
